@@ -125,3 +125,29 @@ Example C01_nonvacuous :
   table (merge_all [] [a; b]) = [(1, Some 7)] /\
   table (merge_all [] [a; x; b]) = [] /\ table (merge_all [] [x; b; a]) = [].
 Proof. vm_compute. repeat split; reflexivity. Qed.
+
+(* Where the cluster-level statement FAILS on the unchanged code (known finding
+   resurrect-duplicate-seq, replayed on three real agents: corpus/C01/found.cases).
+   Step 1, proved here for every database and every record: a data record whose causal
+   length is above the local one resurrects the row and leaves TWO clock rows -- the new
+   sentinel and the column -- under the position (site, db_version, seq) of that one
+   record.  Step 2 (C08_served_is_prefix_up_to_last_seq): a relay serving that version
+   hands out the rows only up to the first one whose seq is last_seq, so the column record
+   is not sent when it is the version's last.  Step 3 (C04/C02): the receiver marks the
+   version known and never asks again. *)
+Theorem C01_resurrecting_merge_stores_two_records_at_one_position : forall d r,
+  r_sent r = false -> Z.odd (r_cl r) = true -> r_cl r <> 1 ->
+  local_cl (dget (r_row r) d) < r_cl r ->
+  exists c, dget (r_row r) (merge d r) = Some (mkRow (r_cl r) (Some (rclk r)) (Some c)) /\
+            c_clk c = rclk r /\ c_val c = r_val r /\ c_colv c = r_colv r.
+Proof. exact resurrect_two_records_one_position. Qed.
+Print Assumptions C01_resurrecting_merge_stores_two_records_at_one_position.
+
+(* the shape of the replayed history: node 0 holds row 2 at causal length 1 (its own insert),
+   then merges node 1's record (text, col_version 2, causal length 3, db_version 3, seq 0) *)
+Example C01_resurrect_shape :
+  let own := mkRec 2 false 5601 1 1 0 1 0 in
+  let r := mkRec 2 false 7517 2 3 1 3 0 in
+  dget 2 (merge (merge [] own) r) =
+    Some (mkRow 3 (Some (mkClk 1 3 0)) (Some (mkCell 7517 2 (mkClk 1 3 0)))).
+Proof. vm_compute. reflexivity. Qed.
